@@ -167,6 +167,7 @@ impl Lane {
             Place::EndFlush => (0u8, 0u32),
             Place::StartFlush => (1, 0),
             Place::Mid(o) => (2, o as u32),
+            Place::Hostile(o) => (3, o as u32),
         };
         b[3] = pk;
         b[4..8].copy_from_slice(&self.cap.to_le_bytes());
@@ -184,7 +185,8 @@ impl Lane {
             place: match b[3] {
                 0 => Place::EndFlush,
                 1 => Place::StartFlush,
-                _ => Place::Mid(po),
+                2 => Place::Mid(po),
+                _ => Place::Hostile(po),
             },
         }
     }
